@@ -315,6 +315,35 @@ fn k13_4_writer_bytes() {
     kani::cover!(k == 16 && flush_between, "byte write after a flush on a boundary");
 }
 
+/// `write_bits_be(v, len)` for every documented length 0..=64 at every
+/// alignment (0..7 leading bits): exactly the `len` low bits of `v`, most
+/// significant first.
+#[kani::proof]
+#[kani::unwind(67)]
+fn k13_4_write_bits_be_wide() {
+    let mut sink = Sink::<10>::new();
+    let k: usize = kani::any();
+    kani::assume(k <= 7);
+    let lead: u8 = kani::any();
+    let v: u64 = kani::any();
+    let len: usize = kani::any();
+    kani::assume(len <= 64);
+    {
+        let mut w = BitWriter::new(&mut sink);
+        w.write_bits_be(lead as u64, k).unwrap();
+        let r = w.write_bits_be(v, len).unwrap();
+        assert!(r == len, "write_bits_be reports a wrong number of written bits");
+        assert!(w.n_total_written() == k + len, "position counter wrong after write_bits_be");
+        w.flush_all().unwrap();
+    }
+    assert!(sink.len == (k + len + 7) / 8, "write_bits_be wrote a wrong number of bytes");
+    kani::cover!(len == 64 && k == 3, "full 64-bit write at an unaligned position");
+    kani::cover!(len == 0, "zero-length write");
+    let q: usize = kani::any();
+    kani::assume(q < len);
+    assert!(refbit(&sink.buf, k + q) == ((v >> (len - 1 - q)) & 1 == 1), "write_bits_be wrote a wrong bit");
+}
+
 /// `collect_bits`: the first `nb <= 16` bits of 2 symbolic bytes are collected
 /// into ceil(nb/8) bytes with zero padding and the exact bit count.
 #[kani::proof]
